@@ -365,19 +365,24 @@ def check_wiring(prog):
     f = prog.fn(O + "extend_from")
     key = "extend_from:order"
     if f is not None:
-        ext = [(b, t) for b, t in f.calls() if (t.get("fn") or "").endswith("Extend::extend") and not f.is_cleanup(b)]
-        srcs = []
-        for b, t in ext:
+        # appends to the new layer list: `extend(x.cores.iter().cloned())` or a push loop over x.cores
+        ev = []
+        for b, t in f.calls():
+            fn = t.get("fn") or ""
+            if f.is_cleanup(b) or not (fn.endswith("Extend::extend") or fn.endswith("Vec::<T, A>::push")) or len(t["args"]) < 2:
+                continue
             d = strip(f.desc_op(t["args"][1]))
-            if contains(d, lambda x: x == ("param", 2)):
-                srcs.append("sup")
-            elif contains(d, lambda x: x == ("param", 1)):
-                srcs.append("self")
-            else:
-                srcs.append("?")
-        # order of calls along the CFG: block numbers increase along straight-line code
-        if srcs == ["sup", "self"]:
+            from_cores = lambda p_: contains(d, lambda x: x[0] == "field" and x[2] == "cores" and contains(x[1], lambda y: y[:2] == ("param", p_)))
+            if from_cores(2):
+                ev.append((b, "sup"))
+            elif from_cores(1):
+                ev.append((b, "self"))
+        sups = [b for b, w in ev if w == "sup"]
+        selfs = [b for b, w in ev if w == "self"]
+        good = bool(sups) and bool(selfs) and all(any(x in f.reach_from(y) for y in sups) for x in selfs) \
+            and not any(y in f.reach_from(x) for x in selfs for y in sups)
+        if good:
             obs.append(ok(RULE, key, site(f), "cores = sup.cores ++ self.cores"))
         else:
-            obs.append(bad(RULE, key, site(f), "extend_from concatenates layers as %s (expected sup then self)" % srcs))
+            obs.append(bad(RULE, key, site(f), "extend_from does not append sup's layers first and self's layers after them (appends seen: %s)" % [w for b, w in ev]))
     return obs
